@@ -218,7 +218,8 @@ def run_check(prop, tier, seed):
         return 2
     ensure_engine()
     work = Work(prop)
-    groups = spec['groups'](tier, seed)
+    # checks whose full bounds are cheap run them in both tiers (thorough then only adds the cross-checks)
+    groups = spec['groups']('thorough' if spec.get('full_bounds_in_quick') else tier, seed)
     jobs, gof = [], {}
     for g in groups:
         for k, args in enumerate(g['jobs']):
